@@ -32,21 +32,39 @@ def _file(cx, mido, shape, ftype=1, linear=False):
 
 
 def _reference(cx, mido, mid, tpb):
-    """[(message, cumulative seconds as an exact formula)] from the merged
-    track (merge itself is C12's subject): 500000 us/beat until a set_tempo,
-    which governs only the deltas after it."""
+    """[(message, cumulative seconds as an exact formula)] computed from the
+    SOURCE tracks (not from merge_tracks): every non-end_of_track message at
+    its own absolute tick, ordered by (tick, track, index); one final
+    end_of_track at the end of the longest track; 500000 us/beat until a
+    set_tempo, which governs only the ticks after it."""
     import z3
     from pysym import reals
-    merged = mido.merge_tracks(mid.tracks)
+    events = []
+    ends = []
+    for ti, tr in enumerate(mid.tracks):
+        now = 0
+        for i, m in enumerate(tr):
+            now = now + m.time
+            if m.type != 'end_of_track':
+                events.append(((now, ti, i), m))
+        ends.append(now)
+    events.sort(key=lambda e: e[0])            # comparisons on symbolic ticks fork: every order is explored
+    total = 0
+    for e in ends:
+        total = cx.ite(e > total, e, total) if cx.symbolic else max(e, total)
+    seq = [(k[0], m) for k, m in events] + [(total, mido.MetaMessage('end_of_track'))]
     out = []
     tempo = 500000
-    cum = 0.0 if not cx.symbolic else reals.SymReal(z3.RealVal(0))
-    for m in merged:
+    prev = 0
+    cum = reals.SymReal(z3.RealVal(0)) if cx.symbolic else 0.0
+    for tick, m in seq:
         if cx.symbolic:
-            term = reals.to_expr(m.time) * reals.to_expr(tempo) / (z3.RealVal(1000000) * reals.to_expr(tpb))
+            term = (reals.to_expr(tick) - reals.to_expr(prev)) * reals.to_expr(tempo) / \
+                (z3.RealVal(1000000) * reals.to_expr(tpb))
             cum = reals.SymReal(cum.e + term)
         else:
-            cum = cum + m.time * tempo / (1000000.0 * tpb)
+            cum = cum + (tick - prev) * tempo / (1000000.0 * tpb)
+        prev = tick
         out.append((m, cum))
         if m.type == 'set_tempo':
             tempo = m.tempo
@@ -233,7 +251,7 @@ OUTSIDE = 'bit-exact IEEE-754 double arithmetic (both solvers time out on it: DE
           'rationals with denominator <= 10^12 (1e-6 = 10^-6); overflow to inf, subnormals; more than 4 events'
 ASSUMPTIONS = [
     'exact-real model of float arithmetic; standard (1+delta) rounding model where stated',
-    'merged order taken from merge_tracks (subject of C12)',
+    'reference tempo-map integral computed from the source tracks (absolute ticks, order (tick, track, index)), independent of merge_tracks',
     'clock double: sleep(d) advances the clock by d plus an arbitrary non-negative oversleep; no time passes inside play() otherwise',
 ]
 
@@ -255,7 +273,8 @@ def JOBS(tier):
     jobs = []
     for s in _shapes(4):
         jobs.append((iter_tempo, {'shape': [s]}, {'width': 0, 'cost': 3 ** len(s)}))
-    for sh in (['nT', 'n'], ['T', 'nn'], ['nTn', 'T'], ['n', 'T', 'n'], ['Tn', 'Tn'], ['', 'n'], ['ne', 'Tn']):
+    for sh in (['nT', 'n'], ['T', 'nn'], ['nTn', 'T'], ['n', 'T', 'n'], ['Tn', 'Tn'], ['', 'n'], ['ne', 'Tn'],
+               ['ne', 'ne'], ['e', 'Te'], ['ne', 'e', 'n'], ['e', 'e', 'Tn'], ['een', 'T']):
         jobs.append((iter_tempo, {'shape': sh}, {'width': 0, 'cost': 100}))
     for s in _shapes(2 if quick else 3):
         jobs.append((iter_tempo, {'shape': [s], 'ulps': 4 * len(s) + 4},
